@@ -3,6 +3,8 @@ and read every observable of the property off them.  Class statements are exec'd
 annotations, source order and creation counters are real."""
 from __future__ import annotations
 
+import collections as _collections
+import collections.abc as _abc
 import inspect
 import sys
 import types
@@ -54,13 +56,50 @@ def field_obs(a) -> dict:
     }
 
 
-def _val(x):
-    return 1
+LOG: list = []          # what the instrumented validators / converters / on_setattr hooks did when probed
+
+
+class UserMapping(_abc.Mapping):
+    """a user-defined read-only Mapping over a dict the user keeps"""
+
+    def __init__(self, under):
+        self._under = under
+
+    def __getitem__(self, k):
+        return self._under[k]
+
+    def __iter__(self):
+        return iter(self._under)
+
+    def __len__(self):
+        return len(self._under)
+
+
+def _mk_validator(tok):
+    def validator(inst, a, v):
+        LOG.append(("val", tok))
+    return validator
+
+
+def _mk_converter(tok):
+    def converter(v):
+        return ("conv", tok, v)
+    return converter
+
+
+def _mk_hook(tok):
+    def hook(inst, a, v):
+        return ("hook", tok, v)
+    return hook
 
 
 def _opts_kwargs(o, ns, key, pc):
-    """keyword arguments of attr.ib()/field() for FOpts `o`; user containers are kept in `ns['_user']`"""
+    """keyword arguments of attr.ib()/field() for FOpts `o`.  Every container handed to attrs is a user-kept
+    object of the kind chosen in pc['ck']; a closure that mutates the user's underlying object afterwards is
+    registered in ns['_user']['mutators']."""
     kw = {}
+    ck = pc.get("ck", {})
+    mut = ns["_user"]["mutators"]
     if o["hasDefault"]:
         if pc.get("dkind") == "factory":
             kw["factory"] = list
@@ -73,14 +112,75 @@ def _opts_kwargs(o, ns, key, pc):
     if o["alias"] is not None:
         kw["alias"] = o["alias"]
     if o["tag"] is not None:
-        md = {"d": o["tag"]}
-        ns["_user"]["md"].append(md)
-        kw["metadata"] = md
-    if pc.get("validators"):
-        vl = [lambda i, a, v: None]
-        ns["_user"]["vl"].append(vl)
-        kw["validator"] = vl
+        kind = ck.get("md", "dict")
+        under = {"d": o["tag"]} if kind != "odict" else _collections.OrderedDict(d=o["tag"])
+        if kind == "proxy":
+            kw["metadata"] = types.MappingProxyType(under)
+        elif kind == "mapping":
+            kw["metadata"] = UserMapping(under)
+        else:
+            kw["metadata"] = under
+
+        def mutate_md(under=under):
+            under["d"] = 999
+            under["extra"] = 1
+        mut.append(mutate_md)
+    vk = ck.get("val", "list" if pc.get("validators") else "none")
+    if vk != "none":
+        vl = [_mk_validator("v1"), _mk_validator("v2")]
+        if vk == "list":
+            kw["validator"] = vl
+            mut.append(lambda vl=vl: (vl.append(_mk_validator("late")), vl.reverse()))
+        elif vk == "tuple":
+            kw["validator"] = tuple(vl)
+        elif vk == "and":
+            kw["validator"] = attr.validators.and_(*vl)
+        else:                                   # a list holding an and_ object
+            inner = [attr.validators.and_(vl[0]), vl[1]]
+            kw["validator"] = inner
+            mut.append(lambda inner=inner: inner.append(_mk_validator("late")))
+    cvk = ck.get("conv", "none")
+    if cvk != "none":
+        cl = [_mk_converter("c1"), _mk_converter("c2")]
+        if cvk == "list":
+            kw["converter"] = cl
+            mut.append(lambda cl=cl: (cl.append(_mk_converter("late")), cl.reverse()))
+        elif cvk == "tuple":
+            kw["converter"] = tuple(cl)
+        else:
+            kw["converter"] = cl[0]
+    ok = ck.get("osa", "none")
+    if ok != "none":
+        hl = [_mk_hook("h1"), _mk_hook("h2")]
+        if ok == "list":
+            kw["on_setattr"] = hl
+            mut.append(lambda hl=hl: (hl.append(_mk_hook("late")), hl.reverse()))
+        else:
+            kw["on_setattr"] = tuple(hl)
     return kw
+
+
+def attr_snapshot(a):
+    """everything of an Attribute that a user container could leak into, as plain data"""
+    del LOG[:]
+    out = [a.name, sorted((str(k), str(v)) for k, v in dict(a.metadata).items()), a.alias, bool(a.inherited),
+           bool(a.kw_only), bool(a.init), a.default is not attr.NOTHING]
+    try:
+        if a.validator is not None:
+            a.validator(None, a, 0)
+        out.append(list(LOG))
+    except BaseException as e:  # noqa: BLE001
+        out.append(["validator raised", exc_kind(e)])
+    del LOG[:]
+    try:
+        out.append(None if a.converter is None else repr(a.converter("t")))
+    except BaseException as e:  # noqa: BLE001
+        out.append(["converter raised", exc_kind(e)])
+    try:
+        out.append(None if a.on_setattr is None else repr(a.on_setattr(None, a, "t")))
+    except BaseException as e:  # noqa: BLE001
+        out.append(["on_setattr raised", exc_kind(e)])
+    return out
 
 
 def make_transformer(tr, rec):
@@ -170,6 +270,8 @@ def _class_source(k, c, pc, base_names, ns, rec, name=None):
         order = list(reversed(entries)) if pc.get("these_rev", True) else entries
         objs = {n: mk(**_opts_kwargs(o, ns, n, pc)) for n, o in order}
         d = {n: objs[n] for n, _ in entries}
+        if pc.get("ck", {}).get("these") == "odict":
+            d = _collections.OrderedDict(d)
         ns[these_var] = d
         ns["_user"]["these"].append(d)
         dk["these"] = these_var
@@ -207,7 +309,10 @@ def _class_source(k, c, pc, base_names, ns, rec, name=None):
         rest_s = "".join(f", {a}={b}" for a, b in rest.items())
         if via == "make_class_list":
             ns[these_var + "_l"] = [n for n, _ in c["these"]]
-            ns["_user"]["lists"].append(ns[these_var + "_l"])
+            if pc.get("ck", {}).get("these") == "tuple":
+                ns[these_var + "_l"] = tuple(ns[these_var + "_l"])
+            else:
+                ns["_user"]["lists"].append(ns[these_var + "_l"])
             first = these_var + "_l"
         else:
             first = these_var
@@ -220,7 +325,7 @@ def new_namespace():
     mod = types.ModuleType("c07_synth")
     ns = mod.__dict__
     ns.update(attr=attr, attrs=attrs, typing=typing, t=typing, ClassVar=typing.ClassVar, _kw={},
-              _user={"md": [], "vl": [], "these": [], "lists": []})
+              _user={"mutators": [], "these": [], "lists": []})
     for k in range(8):
         ns[f"T{k}"] = marker(k)
     return mod, ns
